@@ -1,6 +1,9 @@
 package main
 
 import (
+	"verif/harness/fakemc"
+
+	"bytes"
 	"fmt"
 	"io"
 	"math/rand"
@@ -408,6 +411,39 @@ func init() {
 				if ok {
 					rep.Validated++
 				}
+			}
+		}
+		// chunked L1: the backend refuses one chunk of a set (the handler resets its connection
+		// state), the connection goes on with a second set, then the client leaves in the middle of
+		// a command: the backend connections of that client are all closed
+		for _, cfg := range []StackCfg{{Orca: "l1only", Locked: "none", Bits: 0, L1: "chunked"}, {Orca: "l1l2", Locked: "sr", Bits: 3, L1: "chunked"}} {
+			what := fmt.Sprintf("%s: a set whose second chunk the backend refuses (out of memory), a second set, then the client leaves inside a command", cfg)
+			crumb(what, nil)
+			st := GetStack(cfg)
+			st.Reset()
+			time.Sleep(20 * time.Millisecond)
+			base1, base2 := st.L1.OpenConns(), st.L2.OpenConns()
+			cl := st.Dial("main", "bin")
+			st.L1.Arm(&fakemc.Fault{Index: 2, Kind: fakemc.FaultStatus, Status: 0x0082})
+			_, e1 := cl.Feed(Command{Kind: "set", Key: []byte("big"), Data: bytes.Repeat([]byte{'x'}, 2500), Opaque: 1}.Encode("bin"), 2*time.Second)
+			st.L1.Arm(nil)
+			_, e2 := cl.Feed(Command{Kind: "set", Key: []byte("big"), Data: bytes.Repeat([]byte{'y'}, 2500), Opaque: 2}.Encode("bin"), 2*time.Second)
+			if !cl.dead {
+				cl.c.Write(Command{Kind: "set", Key: []byte("big"), Data: []byte("zzzz"), Opaque: 3}.Encode("bin")[:30])
+			}
+			cl.Close()
+			rep.Evaluations++
+			distinct["chunked-refused-then-leave/"+cfg.String()] = true
+			rep.Distribution["chunked-refused-then-leave"]++
+			deadline := time.Now().Add(2 * time.Second)
+			for time.Now().Before(deadline) && (st.L1.OpenConns() > base1 || st.L2.OpenConns() > base2) {
+				time.Sleep(5 * time.Millisecond)
+			}
+			if n1, n2 := st.L1.OpenConns(), st.L2.OpenConns(); n1 > base1 || n2 > base2 {
+				rep.Violations = append(rep.Violations, Violation{What: fmt.Sprintf("%s (the two sets ended %q and %q): backend connections stay open after the client is gone: L1 %d (was %d), L2 %d (was %d)", what, e1, e2, n1, base1, n2, base2),
+					Signature: "chunked-reset-leak", Replay: map[string]interface{}{"stack": cfg.String()}})
+			} else {
+				rep.Validated++
 			}
 		}
 		rep.Distinct = len(distinct)
